@@ -320,18 +320,56 @@ func init() {
 	}
 }
 
-// largeReadersJob: the reader passes (purity, or concurrent pairs under the race detector) on LARGE
-// containers.  A fixpoint at 200-300 elements is out of reach for the quadratic reader-pair enumeration,
-// so ONE fill history is followed — the first operation of the (deep, data-independent) alphabet that
-// grows the container by one, repeated — and the complete pass runs at the sizes every, 2*every, .. and
-// at the bound.  Exhaustive over reader calls / ordered pairs at the stated states only.
-func largeReadersJob(j Job, r *JobResult) {
-	s := pureSys(makeSys(j.s("c", ""), j))
+// largeStatesJob: nested enumerations on LARGE containers.  A fixpoint at 200-300 elements is out of
+// reach for the per-state enumerations (quadratic reader pairs, snapshots against every operation, iterator
+// graphs, round trips), so ONE history is followed — the first operation of the (deep, data-independent)
+// alphabet that grows the container by one, repeated up to the bound, then the first operation that shrinks
+// it by one, repeated down to empty — and the complete nested enumeration of the job's check runs at the
+// sizes every, 2*every, .. and at the bound, on the way up and on the way down (the capacity differs).
+// Exhaustive over the nested enumeration at the stated states only.
+//
+//	check = pure | race (C18) | snap (C16) | iter | rewound (C08) | roundtrip (C11)
+func largeStatesJob(j Job, r *JobResult) {
+	s := makeSys(j.s("c", ""), j)
 	n, every := j.p("n", 200), j.p("every", 64)
-	race := j.s("binary", "") == "race"
+	check := j.s("check", "pure")
+	if j.s("binary", "") == "race" {
+		check = "race"
+	}
+	if check == "pure" || check == "race" {
+		s = pureSys(s)
+	}
 	r.St = Stats{Nested: map[string]int{}, PerSize: map[int]int{}, OpsHistogram: map[string]int{}, Exhaustive: true}
-	if race && !raceEnabled {
+	if check == "race" && !raceEnabled {
 		panic("tool error: race job executed by a binary built without -race")
+	}
+	nested := func(build func() Inst) *Viol {
+		switch check {
+		case "race":
+			r.St.Nested["race_pass_states"]++
+			return racePass(build, j.p("reps", 1), false, &r.St)
+		case "snap":
+			r.St.Nested["snapshot_states"]++
+			return snapshotCheck(build, &r.St)
+		case "iter":
+			b := build().(Box)
+			if b.NewIter() == nil {
+				return nil
+			}
+			before, ids := CanonIDs(b.Opts(), b.Obj())
+			if v := iterGraphCheck(b.NewIter, ids, b.ExpSeq(), b.Opts(), 3, tag("C08"), &r.St); v != nil {
+				return v
+			}
+			if after, _ := CanonIDs(b.Opts(), b.Obj()); after != before {
+				return viol(tag("C08", "C18"), "invariant", "iterating changed the container")
+			}
+			return nil
+		case "rewound":
+			return rewoundIteratorCheck(build, &r.St, tag("C08", "C06", "C09"), 0)
+		case "roundtrip":
+			return roundTripCheck(build, func(key, via string) {}, &r.St)
+		}
+		return purityPass(build, &r.St)
 	}
 	pass := func(path []Op) bool {
 		build := func() Inst {
@@ -344,17 +382,14 @@ func largeReadersJob(j Job, r *JobResult) {
 			return in
 		}
 		inflightSeq.Add(1)
-		var v *Viol
-		if race {
-			r.St.Nested["race_pass_states"]++
-			v = safeCheck(func() *Viol { return racePass(build, j.p("reps", 1), false, &r.St) }, []string{"C18"}, "concurrent readers")
-		} else {
-			v = safeCheck(func() *Viol { return purityPass(build, &r.St) }, []string{"C18"}, "reader purity")
+		v := safeCheck(func() *Viol { return nested(build) }, []string{j.Prop}, "nested enumeration ("+check+")")
+		if v == nil && j.Prop == "C17" {
+			v = outGuardCheck("nested enumeration")
 		}
 		r.St.States++
-		r.St.PerSize[len(path)]++
+		r.St.PerSize[build().Size()]++
 		if v != nil && v.Has(j.Prop) {
-			v.Msg = fmt.Sprintf("container filled to %d elements: %s", len(path), v.Msg)
+			v.Msg = fmt.Sprintf("container after %d operations (%d elements): %s", len(path), build().Size(), v.Msg)
 			r.Found = &Found{V: v, Path: path, Calls: describePath(s, path, nil)}
 			r.St.Exhaustive = false
 			return true
@@ -367,31 +402,32 @@ func largeReadersJob(j Job, r *JobResult) {
 	}
 	var path []Op
 	cur := s.New()
-	var last *Op
-	for cur.Size() < n {
+	memo := map[int]Op{}
+	move := func(delta int) bool { // extend the history by the first operation that changes the size by delta
 		size := cur.Size()
 		var cands []Op
-		if last != nil {
-			cands = append(cands, *last)
+		if o, ok := memo[delta]; ok { // what worked at the previous step (a rebuild costs a whole replay)
+			cands = append(cands, o)
 		}
 		cands = append(cands, cur.Ops()...)
-		grown := false
 		for _, o := range cands {
 			safeStep(cur, o, nil)
 			r.St.Transitions++
-			if cur.Size() == size+1 {
-				o := o
-				path, last, grown = append(path, o), &o, true
-				break
+			if cur.Size() == size+delta {
+				path = append(path, o)
+				memo[delta] = o
+				return true
 			}
-			// not this one: rebuild the state
-			cur = s.New()
+			cur = s.New() // not this one: rebuild the state
 			for _, p := range path {
 				safeStep(cur, p, nil)
 			}
 		}
-		if !grown {
-			panic(fmt.Sprintf("tool error: no operation of %s grows the container from size %d", s.Name(), size))
+		return false
+	}
+	for cur.Size() < n {
+		if !move(+1) {
+			panic(fmt.Sprintf("tool error: no operation of %s grows the container from size %d", s.Name(), cur.Size()))
 		}
 		if sz := cur.Size(); sz%every == 0 || sz == n {
 			if pass(append([]Op{}, path...)) {
@@ -399,7 +435,17 @@ func largeReadersJob(j Job, r *JobResult) {
 			}
 		}
 	}
-	r.St.Samples = []any{map[string]any{"system": s.Name(), "family": "one fill history (single insertions), reader pass at sizes every/2*every/.. and the bound", "every": every, "bound": n, "race_detector": race}}
+	for cur.Size() > 0 {
+		if !move(-1) {
+			break // no single-element removal in this alphabet
+		}
+		if sz := cur.Size(); sz%every == 0 && sz > 0 {
+			if pass(append([]Op{}, path...)) {
+				return
+			}
+		}
+	}
+	r.St.Samples = []any{map[string]any{"system": s.Name(), "check": check, "family": "one history: single insertions up to the bound, single removals down to empty; nested enumeration at sizes every, 2*every, .. and the bound, both ways", "every": every, "bound": n}}
 }
 
-func init() { jobKinds["largereaders"] = largeReadersJob }
+func init() { jobKinds["largereaders"] = largeStatesJob; jobKinds["largestates"] = largeStatesJob }
